@@ -29,8 +29,8 @@ Definition run_case (line : bytes) : bytes :=
            then Unsupported
            else
              let '(r, matched) := dns_match djb2 psl retr retr_host e (rq_hostname q) q in
-             Ok (sorted_set (map nr_text (dr_network_rules r)) ++ $"/" ++ cls_of (dr_network_rule r) ++ $"/" ++
-                 sorted_set (map hr_text (dr_v4 r)) ++ $"/" ++ sorted_set (map hr_text (dr_v6 r)) ++ $"/" ++ enc_bool matched))
+             Ok (sorted_multi (map nr_text (dr_network_rules r)) ++ $"/" ++ cls_of (dr_network_rule r) ++ $"/" ++
+                 sorted_multi (map hr_text (dr_v4 r)) ++ $"/" ++ sorted_multi (map hr_text (dr_v6 r)) ++ $"/" ++ enc_bool matched))
            (split_byte "|"%byte (nth_field fs 1))))
     | Err => $"E" | Crash => $"P" | Unsupported => $"U"
     end
